@@ -977,7 +977,10 @@ def transform(fn, proceed, to_instrument=True, set_conformer=True):
     filename = inspect.getsourcefile(fn)
     tree = ast.parse(src, filename)
     tree = tree.body[0]
-    assert isinstance(tree, ast.FunctionDef)
+    if not isinstance(tree, ast.FunctionDef):
+        raise TypeError(
+            f"transform() only works on functions defined with def (got {fn})"
+        )
     tree.decorator_list = []
 
     fnsym = _gensym()
@@ -1157,7 +1160,12 @@ class SyncedStackedTransforms(StackedTransforms):
 
     def push(self, captures):
         super().push(captures)
-        self._apply(self.target)
+        try:
+            self._apply(self.target)
+        except Exception:
+            # The function cannot be instrumented: do not leave it counted
+            super().pop(captures)
+            raise
 
     def pop(self, captures):
         super().pop(captures)
